@@ -741,8 +741,11 @@ class TypeBlocks(ContainerOperand):
                     else:
                         yield b[index_ic.iloc_src_fancy(), columns_ic.iloc_src]
                 else:
-                    columns_dst_to_src = dict(
-                            zip(columns_ic.iloc_dst, columns_ic.iloc_src)) #type: ignore [arg-type]
+                    if columns_ic.has_common:
+                        columns_dst_to_src = dict(
+                                zip(columns_ic.iloc_dst, columns_ic.iloc_src)) #type: ignore [arg-type]
+                    else: # no columns in common: all fill
+                        columns_dst_to_src = {}
 
                     for idx in range(columns_ic.size):
                         if idx in columns_dst_to_src:
